@@ -269,12 +269,20 @@ def _build(fmt, rs, A, dt, rdt, kind):
         A_ = A([I, R])
         B_ = A([R, R])
         C_ = A([K, R])
+        mixed = gen.choice(rs, ["uniform", "uniform", "uniform", "int-A", "real-A"])
+        if mixed == "int-A":
+            # an integer indicator / count matrix as first-mode factor with floating B, C: the dense tensor is floating
+            A_ = rs.randint(0, 3, size=(I, R)).astype(np.int64)
+        elif mixed == "real-A" and np.dtype(dt).kind == "c":
+            A_ = gen.arr(rs, [I, R], rdt, kind)
+        else:
+            mixed = "uniform"
         P = [gen.orth(rs, j, R, rdt).astype(dt) for j in J]
         wk = gen.choice(rs, ["none", "ones", "generic", "negative"])
         w = {"none": None, "ones": np.ones(R, dtype=rdt), "generic": gen.arr(rs, [R], rdt, "gauss"), "negative": -np.abs(gen.arr(rs, [R], rdt, "gauss")) - 0.1}[wk]
         wrapper = rs.rand() < 0.5
         uneven = len(set(J)) > 1
-        desc = {"fmt": "parafac2", "I": I, "J": J, "K": K, "rank": R, "weights": wk, "wrapper": bool(wrapper), "cls": "uneven" if uneven else "even"}
+        desc = {"fmt": "parafac2", "I": I, "J": J, "K": K, "rank": R, "weights": wk, "wrapper": bool(wrapper), "cls": ("uneven" if uneven else "even") + ("" if mixed == "uniform" else "+" + mixed)}
         slices, sabs = [], []
         for i in range(I):
             ops = [P[i], B_, A_[i], C_] + ([w] if w is not None else [])
@@ -325,11 +333,14 @@ def _invalid(ctx, rs, A, tl, tenalg):
     from tensorly.tt_matrix import TTMatrix, tt_matrix_to_tensor
     from tensorly import parafac2_tensor as p2
 
-    which = gen.choice(rs, ["cp-columns", "cp-weights", "tucker-cols", "tucker-count", "tt-boundary0", "tt-boundaryN", "tt-consecutive",
+    which = gen.choice(rs, ["cp-columns", "cp-weights", "cp-weights-2d", "tucker-cols", "tucker-count", "tt-boundary0", "tt-boundaryN", "tt-consecutive",
                             "tr-ring", "tr-consecutive", "ttm-boundary", "ttm-consecutive", "p2-count", "p2-width", "p2-nonorth", "p2-factor-cols"])
     order = int(rs.randint(3, 5))
     shp = gen.shape(rs, order, 2, 4)
-    R = int(rs.randint(2, 4))
+    # rank 1 next to rank 2 is the dangerous mismatch: einsum-style contractions broadcast a size-1 axis instead of failing
+    R = int(rs.randint(1, 4))
+    if which.startswith("p2-") or which == "cp-weights-2d":
+        R = max(R, 2)
     be = gen.choice(rs, ["core", "einsum"])
     tenalg.set_backend(be)
     attempts = []
@@ -342,6 +353,16 @@ def _invalid(ctx, rs, A, tl, tenalg):
         f = [A([s, R]) for s in shp]
         w = A([R + 1], "float64", "gauss")
         attempts = [("CPTensor", lambda: CPTensor((w, f))), ("cp_to_tensor", lambda: cp_to_tensor((w, f)))]
+    elif which == "cp-weights-2d":
+        # weights stored as a column (R, 1) (e.g. from loadmat / keepdims): not a valid weight vector; the dangerous case is a
+        # mode whose size equals the rank, where broadcasting silently scales rows instead of components
+        shp2 = list(shp)
+        shp2[int(rs.randint(order))] = R
+        shp2[0] = R if rs.rand() < 0.5 else shp2[0]
+        f = [A([s, R]) for s in shp2]
+        w = A([R, 1], "float64", "gauss")
+        attempts = [("CPTensor", lambda: CPTensor((w, f))), ("cp_to_tensor", lambda: cp_to_tensor((w, f))), ("cp_to_unfolded", lambda: __import__("tensorly").cp_tensor.cp_to_unfolded((w, f), 0)),
+                    ("cp_norm", lambda: __import__("tensorly").cp_tensor.cp_norm((w, f)))]
     elif which == "tucker-cols":
         rk = gen.shape(rs, order, 1, 3)
         core = A(rk)
@@ -355,7 +376,7 @@ def _invalid(ctx, rs, A, tl, tenalg):
         f = [A([s, r]) for s, r in zip(shp, rk)][:-1]
         attempts = [("TuckerTensor", lambda: TuckerTensor((core, f)))]
     elif which in ("tt-boundary0", "tt-boundaryN", "tt-consecutive"):
-        ranks = [1] + [int(rs.randint(2, 4)) for _ in range(order - 1)] + [1]
+        ranks = [1] + [int(rs.randint(1, 4)) for _ in range(order - 1)] + [1]
         cores = [A([ranks[k], shp[k], ranks[k + 1]]) for k in range(order)]
         if which == "tt-boundary0":
             cores[0] = A([2, shp[0], ranks[1]])
@@ -366,7 +387,7 @@ def _invalid(ctx, rs, A, tl, tenalg):
             cores[k] = A([ranks[k] + 1, shp[k], ranks[k + 1]])
         attempts = [("TTTensor", lambda: TTTensor(cores)), ("tt_to_tensor", lambda: tt_to_tensor(cores))]
     elif which in ("tr-ring", "tr-consecutive"):
-        ranks = [int(rs.randint(2, 4)) for _ in range(order)]
+        ranks = [int(rs.randint(1, 4)) for _ in range(order)]
         ranks.append(ranks[0])
         cores = [A([ranks[k], shp[k], ranks[k + 1]]) for k in range(order)]
         if which == "tr-ring":
@@ -378,7 +399,7 @@ def _invalid(ctx, rs, A, tl, tenalg):
     elif which in ("ttm-boundary", "ttm-consecutive"):
         n = 3
         left, right = gen.shape(rs, n, 1, 3), gen.shape(rs, n, 1, 3)
-        ranks = [1, 2, 3, 1]
+        ranks = [1, int(rs.randint(1, 3)), int(rs.randint(1, 4)), 1]
         cores = [A([ranks[k], left[k], right[k], ranks[k + 1]]) for k in range(n)]
         if which == "ttm-boundary":
             if rs.rand() < 0.5:
@@ -420,10 +441,10 @@ def _invalid(ctx, rs, A, tl, tenalg):
         tup = (None, (A_, B_, C_), P)
         attempts = [("Parafac2Tensor", lambda: p2.Parafac2Tensor(tup)), ("parafac2_to_tensor", lambda: p2.parafac2_to_tensor(tup)),
                     ("parafac2_to_slices", lambda: p2.parafac2_to_slices(tup))]
-    for name, f in attempts:
+    for name, attempt in attempts:
         try:
-            out = f()
-        except Exception as e:  # noqa: rejected, as required
+            out = attempt()
+        except (ValueError, IndexError) as e:  # rejected, as required
             ctx.count("invalid_rejected")
             ctx.count("invalid/%s/%s/%s" % (which, name, type(e).__name__))
         else:
